@@ -411,6 +411,8 @@ def check_batch(case):
         kw = {'axis': tf['axis'], 'union': tf['union']}
         if tf['fill'] != 'default':
             kw['fill_value'] = tf['fill']
+        if (len(frames) + len(chain)) % 2:  # the name of the exported Frame, merging of equal-typed neighbouring blocks
+            kw.update(name='bn', consolidate_blocks=True)
         r = lib(lambda: _apply_chain(sf.Batch.from_frames(frames), chain, rep=frames[0]).to_frame(**kw))
         vals = list(expected.values())
         if all(isinstance(v, sf.Frame) for v in vals):
@@ -422,6 +424,8 @@ def check_batch(case):
         if want is not None and not isinstance(want, Raised):
             if isinstance(r, Raised):
                 raise Failure('raised:%s' % r.cls, 'Batch chain %s .to_frame(%r) raised %r' % (chain, kw, r.exc), r.where)
+            if obs.canon_name(r.name) != obs.canon_name(kw.get('name')):
+                raise Failure('export-name', 'Batch chain %s .to_frame(%r) returned a Frame named %r' % (chain, kw, r.name))
             if _snap_any(r) != _snap_any(want):
                 raise Failure('export-differs', 'Batch chain %s .to_frame(%r) -> %s; concatenating the member results -> %s' % (chain, kw, short(_snap_any(r), 400), short(_snap_any(want), 400)))
     elif case['export'] == 'to_bus':
@@ -453,9 +457,6 @@ def tag(case, f):
     if op == 'window' and case.get('wopts', {}).get('start_shift', 0) != 0 and (
             (f.kind == 'raised:UnboundLocalError' and 'component_is_series' in f.detail) or (f.kind == 'raised:RuntimeError' and 'StopIteration' in f.detail)):
         return 'quilt-empty-selection-raises'
-    # apply() over no window at all on a quilt with retained (hierarchical) labels: the empty result index cannot be built
-    if op == 'window' and case.get('wform') == 'apply' and case.get('retain') and f.kind == 'raised:ErrorInitIndexLevel' and 'zero length index' in f.detail:
-        return 'quilt-window-apply-without-windows-hierarchical-raises'
     # non-ascending keys on the quilt axis: order inside a member is lost / a member is revisited
     if op in ('iloc', 'loc', 'getitem') and not case['ascending_only']:
         try:
